@@ -340,7 +340,7 @@ pub fn call_specs(props: &[String], rng: &mut StdRng, n: usize, rich: bool) -> V
 /// claimed decompositions of the composed (large) cases, by case id
 pub static COMPOSED: Mutex<Vec<(String, Vec<Vec<usize>>, Vec<usize>)>> = Mutex::new(Vec::new());
 /// composed cases whose answers are longer than this are not recorded (TLC's cost is linear in the answer length)
-const BIG_ANSWER_CAP: usize = 700;
+const BIG_ANSWER_CAP: usize = 800;
 
 pub fn run_case(case: &AdfCase, specs: &[CallSpec], disabled: &Mutex<Vec<String>>, prop: &str) -> Value {
     let text = case.text();
@@ -512,6 +512,16 @@ pub fn main(args: &[String]) {
         if tier != "feat" {
             let nbig = match (thorough, heavy) { (false, false) => 60, (false, true) => 30, (true, false) => 500, (true, true) => 200 };
             let (lo, hi) = if props.iter().any(|p| p == "C02") { (8, 11) } else { (9, 16) };
+            // frameworks with hundreds of models (exactly 256, and more): C03-C05 only (complete() would visit 3^n candidates)
+            if !props.iter().any(|p| p == "C02" || p == "C01") {
+                let shapes: &[(usize, usize, usize)] = if thorough { &[(8, 0, 0), (5, 2, 0), (7, 1, 1), (9, 0, 0), (6, 1, 2), (8, 0, 1)] } else if heavy { &[(8, 0, 0), (5, 2, 0)] } else { &[(8, 0, 0), (5, 2, 0), (7, 1, 1)] };
+                for (k, sh) in shapes.iter().enumerate() {
+                    let (case, blocks, observers) = many_models_adf(&mut rng, format!("many{}", k), *sh);
+                    COMPOSED.lock().unwrap().push((case.id.clone(), blocks, observers));
+                    let at = (cases.len() / (shapes.len() + 1)) * (k + 1);
+                    cases.insert(at, case);
+                }
+            }
             // spread evenly over the trace (the validation is sharded by position)
             let stride = (cases.len() / (nbig + 1)).max(1);
             for k in 0..nbig {
